@@ -10,7 +10,10 @@ Inductive c15case :=
 (* payloads too large to be written into a Coq file (32 KiB .. several MiB): the driver compares
    bytes itself and reports only the facts the property speaks about; judged by the oracle only *)
 | CBigSer (len comp cks : N) (ser_ok rt_equal raw_ok : bool)
-| CBigCorrupt (len comp cks : N) (pos : N) (lib_detects : bool) (go : oclass).
+| CBigCorrupt (len comp cks : N) (pos : N) (lib_detects : bool) (go : oclass)
+(* the envelope as datatype/keyvalue uses it: POST key then GET key on an instance created with the given
+   compression and checksum; [got] is what the GET answered *)
+| CKV (comp cks : N) (data : bytes) (put_ok : bool) (got : res bytes).
 
 Definition res_eqb {A} (eqb : A -> A -> bool) (a b : res A) : bool :=
   match a, b with
@@ -44,6 +47,7 @@ Definition model_ok (c : c15case) : bool :=
   | CCorrupt s0 pos b' u dres go => res_eqb pair_eqb (deserialize (oracle Err dres) (set_nth s0 pos b') u) go
   | CBigSer _ _ _ _ _ _ => true
   | CBigCorrupt _ _ _ _ _ _ => true
+  | CKV _ _ data put_ok got => put_ok && res_eqb bytes_eqb got (Ok data)
   end.
 
 (* property-level oracle evaluated on what the implementation returned.
@@ -94,6 +98,9 @@ Definition spec_class (c : c15case) : nat :=
       if ((cks =? n_CRC32) && negb (comp =? n_Gzip) && (1 <=? pos)) || lib_detects
       then 3%nat else 0%nat
     end
+  | CKV comp cks data put_ok got =>
+    if is_panic got then 1%nat
+    else if put_ok && negb (res_eqb bytes_eqb got (Ok data)) then 2%nat else 0%nat
   end.
 
 Fixpoint classify_from (i : nat) (l : list c15case) : list (nat * nat) :=
